@@ -104,13 +104,16 @@ func CompareRaster(h *Header, s *RasterScene, spaces []int) (ms []core.Mismatch)
 				var sig string
 				switch {
 				case len(s.NZ) > 0 && s.NZ[y][x] != code && pixelOK(h, s.NZ[y][x], got, sp):
-					sig = "raster-fillrule-ignored:rules-differ-on-pixel" // the pixel is what the frame demands when every rule is read as NonZero
+					// the pixel is what the frame demands when every rule is read as NonZero
+					if s.Feat["posnegopen"] {
+						sig = "raster-fillrule-positive-negative-open-subpath:rules-differ-on-pixel"
+					} else {
+						sig = "raster-fillrule-ignored:rules-differ-on-pixel"
+					}
 				case x == 0 && s.Feat["left"]:
 					sig = "raster-pixel:column-0:region-crosses-left-border"
 				case y == 0 && s.Feat["top"]:
 					sig = "raster-pixel:row-0:region-crosses-top-border"
-				case s.Feat["openfill"]:
-					sig = "raster-open-subpath-fill"
 				case s.Feat["selfx"]:
 					sig = "raster-stroke:closed-self-intersecting-path"
 				case code == 0:
